@@ -647,6 +647,10 @@ class ApplicationJobs:
         for command in sum(self.planned_jobs.values(), []):
             if command.process in failed_processes:
                 failed_processes.remove(command.process)
+            # NOTE: in a non-distributed application, the target has been chosen when the jobs were planned
+            #       a request to the lost Supvisors instance would never be acknowledged nor time out
+            if command.identifier in invalidated_identifiers:
+                command.identifier = None
         # no need to trigger jobs
         # this method is already triggered by the upper periodic check that will call self.next() anyway
 
